@@ -446,6 +446,14 @@ def check_case(case, ev):
         if not sp.entrypoints:
             raise Violation("c08.cycle_seed_not_required", f"with_entrypoint('mk_limit') on the stage in front of the loop: the cycle lies downstream of it but the spec lists no way to seed it "
                             f"(required={sp.required} optional={sp.optional} entrypoints={sp.entrypoints}); a run without a seed would be accepted and the loop would never start")
+    if kind == "loop" and not case["loop"].get("nested") and not case.get("entry_upstream") and entry is None and sel is None:
+        # a plain loop graph: its carried value is produced inside the cycle only, so the spec must offer a way to seed it
+        # the gate's target b0 takes the carried value, which only the cycle produces: it is the loop's natural way in, whatever the
+        # gate's default_open flag says (which of the OTHER body nodes are listed follows the library's own de-duplication rules)
+        has_b0 = any(n_["name"] == "b0" for n_ in gspec["nodes"])
+        if not sp.entrypoints or (has_b0 and "b0" not in sp.entrypoints):
+            raise Violation("c08.cycle_seed_not_required", f"the loop's first body node b0 takes the carried value, which only the cycle produces, but the spec lists entry points {sp.entrypoints} "
+                            f"(required={sp.required} optional={sp.optional}); loop={J(case['loop'])}", plain_loop=True)
     # ---- (c) disjointness
     req, opt = set(sp.required), set(sp.optional)
     epp = {p for ps in sp.entrypoints.values() for p in ps}
